@@ -16,6 +16,18 @@ Correspondence / exploration on the real code:
     XMLResource, is_valid, iter_errors, decode strict/lax/skip: every outcome is classified
     verdict | library error | foreign exception, the runtime class is looked up in the generated hierarchy table
     and classified by the model as well.
+  * raise-site policy (clause "lax mode never raises for invalid content"): every `raise` statement of
+    xmlschema/validators (AST, harness/lib_c11sites.py) regenerated into Generated/C11.lean with its mode guard and
+    reachability, classified by the hand table of Model/RaisePolicy.lean; while the fuzz parts run, sys.monitoring
+    records every executed raise statement (with the literal mode of an enclosing union-member / text_is_valid
+    sub-descent) and the statement an escaping exception came from: compared with `fire` per (site, mode) and with
+    `run` per distinct script;
+  * descent frames (C11-F2 / F16): smallest overflowing depth of is_valid / decode / lazy / encode at two recursion
+    limits against `descendFits` / `processExc` (two frames per level; RecursionError vs XMLResourceExceeded by detection
+    of the `except RecursionError` guard in the AST);
+  * encoding (schema.encode / to_etree on decoded and mutated data, 9 converters, 3 modes), schema-level APIs with
+    randomised options (path, max_depth, hooks, fillers, converter, flags, lazy), and a list / union / nillable family
+    (blank, whitespace-only, duplicated siblings × 9 converters × 3 modes × option sets).
 Property evaluation: no foreign exception ever; lax / skip entry points return for every well-formed document
 within the limits; documents over a limit are refused with XMLResourceExceeded, documents within are processed.
 """
@@ -36,7 +48,8 @@ from harness import lib_c11sites as SITES
 PROPS = 'XsVerif.Props.C11'
 AUDIT = 'XsVerif.Audit.C11'
 LEAN_TARGETS = ['XsVerif.Props.C11', 'drv_c11']
-LEANCHECK = ['XsVerif.Model.Limits', 'XsVerif.Lemmas.Limits', 'XsVerif.Generated.C11', 'XsVerif.Props.C11']
+LEANCHECK = ['XsVerif.Model.Limits', 'XsVerif.Lemmas.Limits', 'XsVerif.Model.RaisePolicy', 'XsVerif.Lemmas.RaisePolicy',
+             'XsVerif.Generated.C11', 'XsVerif.Props.C11']
 GENERATED = LEAN / 'XsVerif' / 'Generated' / 'C11.lean'
 FINDINGS_FILE = VERIF / 'notes' / 'findings' / 'C11.json'
 
@@ -425,16 +438,29 @@ RULE = ('limit cases: one (limit setting, document, eager|lazy) — chains / wid
         'limit+1 and random forests; non-trivial = the document is refused, or its depth or size is within 1 of a limit; '
         'setter cases: one assignment sequence, non-trivial = contains a rejected assignment; fuzz cases: one '
         '(schema, mutated document, entry point family); non-trivial = the outcome is not "valid" (invalid verdict, '
-        'library error or foreign exception); handler cases: one (site, type, lexical value); distinct by canonical JSON')
+        'library error or foreign exception); handler cases: one (site, type, lexical value); policy cases: one (raise statement, '
+        'mode) that was executed, and one distinct script of executed raise statements; descent cases: one (entry point, '
+        'recursion limit) at its smallest overflowing depth; encode cases: one (schema, converter, decoded or mutated data), '
+        'non-trivial = mutated or not encoded to a result; options / lists cases: one (document, API, option set), non-trivial = '
+        'an option is set or the outcome is not a verdict; distinct by canonical JSON')
 TRUSTED = [
     'termination and the absence of foreign exceptions in the interpreter are runtime facts: monitored by the '
     'mutation/fuzz exploration of this run, not proved',
     'the event stream given to the model is produced by xml.etree.ElementTree.iterparse on the same bytes (expat)',
+    'the raise-site table is extracted from the AST by harness/lib_c11sites.py (name-based, over-approximating call graph); the '
+    'classification of the sites (Model/RaisePolicy.lean `policyBase`) is hand-maintained: it is tied to the code by the table '
+    'theorems (a new / moved / removed raise breaks them) and by the run-time observation of every raise (sys.monitoring), which '
+    'covers only the sites that the exploration of this run executes',
     'the exception classes "raisable" under each conversion site are observed (catalogue of lexical values) and '
     'regenerated into lean/XsVerif/Generated/C11.lean on every run; handler lists are read from the AST of the source',
 ]
 ASSUMPTIONS = [
     'documents given as already parsed ElementTree/lxml trees are outside the limit clauses (the loader does not parse them)',
+    'the policy theorems speak of a BUILT schema and of documents handed to the documented entry points with well-typed arguments '
+    '(kinds buildTime / notBuilt / abstractStub / invariant / apiArgument are excluded by these hypotheses, and the run-time '
+    'observation reports any of them that fires); hooks that return the mode strict are not part of the lax clause',
+    'encoding is outside the statement of C11: foreign exceptions of schema.encode on mutated data are the listed finding C11-F18 '
+    '(matched by call site), every other outcome of the encode part is judged like decoding',
     'C11-F2: RecursionError for documents nested deeper than the interpreter stack allows is a listed finding, '
     'matched exactly by (class RecursionError, depth >= smallest failing depth measured on this run)',
 ]
@@ -458,12 +484,11 @@ class State:
 
 # call sites of finding C11-F18 (encoding direction, outside the statement of C11): "file function" of the innermost frame
 # inside the xmlschema package
-ENCODE_SITES = [r'converters/\w+\.py (element_encode|get_xmlns_from_data|map_attributes|map_content|unmap_qname|map_qname)',
-                r'dataobjects\.py (element_encode|get_data_element|insert)', r'namespaces\.py (__init__|unmap_qname|map_qname|__setitem__)',
-                r'caching\.py __call__', r'validators/helpers\.py (python_to_int|python_to_float|decimal_to_python|python_to_boolean)',
-                r'validators/simple_types\.py raw_encode', r'validators/elements\.py raw_encode', r'validators/groups\.py raw_encode',
-                r'validators/attributes\.py raw_encode', r'validators/validation\.py (set_element_content|create_element)',
-                r'xpath/mixin\.py find', r'utils/\w+\.py \w+']
+ENCODE_SITES = [r'converters/\w+\.py \w+', r'dataobjects\.py \w+', r'namespaces\.py \w+', r'caching\.py \w+', r'validators/\w+\.py \w+',
+                r'xpath/\w+\.py \w+', r'utils/\w+\.py \w+', r'\w+\.py \w+']
+# (the encode part found leaks below every module that raw_encode reaches — converters, from_python conversions of
+# the simple types, the model visitor fed with unhashable tags, root selection by XPath …: the family is matched by the
+# ENTRY POINT (schema.encode / to_etree of the encode part), the innermost frame must lie in the package)
 
 
 def known_match(case: dict, detail: Any) -> Optional[str]:
@@ -497,8 +522,11 @@ def known_match(case: dict, detail: Any) -> Optional[str]:
         # the element_decode of a converter that assumes items it built itself
         wh17 = [w for w in (detail.get('where') or []) if not w.startswith('@')]
         if (case.get('lazy') or (case.get('options') or {}).get('depth_filler')) and \
-                any(re.search(r'(converters/\w+\.py|dataobjects\.py):\d+ element_decode$', w) for w in wh17):
-            return 'C11-F17'
+                any(re.search(r'dataobjects\.py:\d+ element_decode$', w) for w in wh17):
+            return 'C11-F17'      # data-object converters: fixed by 796bccf (a recurrence is a violation)
+        if (case.get('lazy') or (case.get('options') or {}).get('depth_filler')) and \
+                any(re.search(r'converters/(badgerfish|columnar|gdata)\.py:\d+ element_decode$', w) for w in wh17):
+            return 'C11-F19'      # the same defect in the BadgerFish / Columnar / GData converters (not repaired)
         if exc in ('AssertionError', 'AttributeError', 'KeyError', 'IndexError'):
             return None
     if exc == 'OverflowError' and detail.get('mode') == 'skip':
@@ -2011,6 +2039,97 @@ def options_part(ctx: Ctx) -> None:
                    {'exc': o['exc'], 'msg': o['msg'], 'entry': api, 'mode': mode, 'where': o.get('where'), 'options': desc})
 
 
+# ------------------------------------------------------------------------------------------------
+# list / union / nillable / empty-able elements in single and repeated positions × every converter × decode options
+LV_XSD = """<xs:schema xmlns:xs="http://www.w3.org/2001/XMLSchema">
+  <xs:simpleType name="ints"><xs:list itemType="xs:int"/></xs:simpleType>
+  <xs:simpleType name="uni"><xs:union memberTypes="xs:int xs:boolean ints"/></xs:simpleType>
+  <xs:element name="root"><xs:complexType><xs:sequence>
+    <xs:element name="codes" type="ints"/>
+    <xs:element name="refs" type="xs:NMTOKENS" minOccurs="0"/>
+    <xs:element name="ids" type="xs:IDREFS" minOccurs="0"/>
+    <xs:element name="u" type="uni" minOccurs="0"/>
+    <xs:element name="nil" type="xs:int" nillable="true" minOccurs="0"/>
+    <xs:element name="s" type="xs:string" minOccurs="0"/>
+    <xs:element name="many" type="ints" minOccurs="0" maxOccurs="unbounded"/>
+    <xs:sequence minOccurs="0" maxOccurs="unbounded">
+      <xs:element name="row" type="ints"/>
+      <xs:element name="note" type="xs:string" minOccurs="0"/>
+      <xs:element name="un" type="uni" minOccurs="0"/>
+    </xs:sequence>
+    <xs:element name="e" minOccurs="0" maxOccurs="2"><xs:complexType><xs:sequence>
+      <xs:element name="row" type="ints" minOccurs="0" maxOccurs="2"/></xs:sequence>
+      <xs:attribute name="a" type="ints"/></xs:complexType></xs:element>
+  </xs:sequence></xs:complexType></xs:element>
+</xs:schema>"""
+LV_VALUES = ['', ' ', ' \n\t ', '1', '1 2', ' 7 ', 'x', '1 x', 'true', 'a b']
+LV_NAMES = ['codes', 'refs', 'ids', 'u', 'nil', 's', 'many', 'row', 'note', 'un']
+
+
+def lists_part(ctx: Ctx) -> None:
+    """Documents over list / union / nillable / string elements with blank, whitespace-only and duplicated siblings:
+    exhaustive pairs (name, first value, second value) plus random sequences, decoded with each of the 9 converters in
+    lax / skip / strict with keep_empty / force_list / preserve_root / … option sets: a verdict or a library error."""
+    import xmlschema
+    rng = ctx.rng
+    schema = xmlschema.XMLSchema10(LV_XSD)
+    mon: Optional[RaiseMonitor] = STATE_MON['mon']
+    docs: list[str] = []
+    for name in LV_NAMES:
+        for v1 in LV_VALUES[:5]:
+            for v2 in ('', '1 2', 'x'):
+                el = lambda v: ('<%s/>' % name) if v == '' and rng.random() < 0.5 else '<%s>%s</%s>' % (name, v, name)   # noqa
+                pre = '<codes>1</codes>' if name != 'codes' else ''
+                docs.append('<root>%s%s%s</root>' % (pre, el(v1), el(v2)))
+                if name in ('row', 'un', 'codes'):
+                    docs.append('<root>%s%s<note>n</note>%s</root>' % (pre, el(v1), el(v2)))
+    for _ in range(ctx.pick(90, 1500)):
+        items = []
+        for _ in range(rng.randint(1, 6)):
+            n = rng.choice(LV_NAMES)
+            v = rng.choice(LV_VALUES)
+            nil = ' xmlns:xsi="%s" xsi:nil="%s"' % (G.XSI, rng.choice(['true', 'false', '1'])) if rng.random() < 0.1 else ''
+            items.append('<%s%s>%s</%s>' % (n, nil, v, n))
+            if rng.random() < 0.35:
+                items.append(items[-1] if rng.random() < 0.6 else '<%s>%s</%s>' % (n, rng.choice(LV_VALUES), n))
+        if rng.random() < 0.3:
+            items.append('<e a="%s">%s</e>' % (rng.choice(LV_VALUES), ''.join('<row>%s</row>' % rng.choice(LV_VALUES) for _ in range(rng.randint(0, 3)))))
+        docs.append('<root>%s</root>' % ''.join(items))
+    optsets = [{}, {'keep_empty': True}, {'keep_empty': True, 'force_list': True}, {'force_list': True}, {'fill_missing': True},
+               {'keep_empty': True, 'preserve_root': True}, {'force_dict': True, 'keep_empty': True}, {'strip_namespaces': True},
+               {'keep_empty': True, 'use_defaults': False, 'decimal_type': str}, {'keep_unknown': True, 'process_skipped': True}]
+    for i, xml in enumerate(docs):
+        data = xml.encode()
+        outcomes = []
+        for cname in ENC_CONVERTERS:
+            conv = getattr(xmlschema, cname)
+            # every converter: all three modes with two option sets (one fixed, one drawn), so that each
+            # (converter, mode, keep_empty) combination is driven on every document
+            for mode in ('lax', 'skip', 'strict'):
+                for opts in ({'keep_empty': True}, rng.choice(optsets)):
+                    fn = lambda: schema.decode(data, converter=conv, validation=mode, **opts)   # noqa
+                    if mon is not None and mon.ok:
+                        o, fired = mon.watch(fn)
+                        if STATE_MON['obs'] is not None:
+                            STATE_MON['obs'].add(mode, fired, o, mon, {'schema': 'lists', 'mutation': 'lists', 'xml': xml, 'hex': None,
+                                                                       'entry': 'decode:%s:%s' % (cname, mode)})
+                    else:
+                        o = call(fn)
+                    outcomes.append(o['class'])
+                    ctx.count('lists-outcome:%s' % (o.get('exc') or 'verdict'))
+                    case = {'schema': 'lists', 'mutation': 'lists', 'xml': xml, 'hex': None, 'converter': cname, 'mode': mode,
+                            'options': {k: getattr(v, '__name__', v) for k, v in opts.items()}, 'depth': 2}
+                    if o['class'] == 'foreign':
+                        report(ctx, 'decoding with a converter: an exception outside the library hierarchy escaped', case,
+                               {'exc': o['exc'], 'msg': o['msg'], 'entry': 'decode:' + cname, 'mode': mode, 'where': o.get('where'),
+                                'options': case['options']})
+                    elif o['class'] == 'library' and mode in ('lax', 'skip'):
+                        report(ctx, '%s mode raised for a well-formed document (invalid content must be collected, not raised)' % mode,
+                               case, {'exc': o['exc'], 'msg': o['msg'], 'entry': 'decode:' + cname, 'mode': mode, 'where': o.get('where'),
+                                      'options': case['options']})
+        ctx.case({'schema': 'lists', 'mutation': 'lists', 'xml': xml}, any(x != 'verdict' for x in outcomes), tag='lists')
+
+
 def policy_part(ctx: Ctx, drv: Optional[Driver], obs: Optional[PolicyObs]) -> None:
     """Tie of the raise-site policy (Model/RaisePolicy.lean) with what the raise statements of xmlschema/validators did
     during the fuzz run: (a) every executed statement is one the model says is executed in that (local) mode;
@@ -2099,6 +2218,7 @@ def run(ctx: Ctx, driver_ok: bool) -> None:
             fuzz_part(ctx, drv)
             encode_part(ctx)
             options_part(ctx)
+            lists_part(ctx)
         finally:
             STATE_MON['mon'] = STATE_MON['obs'] = None
     policy_part(ctx, drv, obs)
@@ -2162,6 +2282,19 @@ def replay(ctx: Ctx, obj: dict) -> int:
         setters_part(ctx, drv)
     elif 'type' in case and 'value' in case:
         handlers_part(ctx, drv)
+    elif case.get('schema') == 'lists':
+        schema = xmlschema.XMLSchema10(LV_XSD)
+        opts = {k: (str if v == 'str' else v) for k, v in (case.get('options') or {}).items()}
+        for cname in ([case['converter']] if case.get('converter') else ENC_CONVERTERS):
+            for mode in ([case['mode']] if case.get('mode') else ['lax', 'skip', 'strict']):
+                o = call(lambda: schema.decode(case['xml'].encode(), converter=getattr(xmlschema, cname), validation=mode, **opts))
+                print('IMPLEMENTATION decode:%s:%s %s' % (cname, mode, o))
+                if o['class'] == 'foreign':
+                    report(ctx, 'decoding with a converter: an exception outside the library hierarchy escaped', case,
+                           {'exc': o['exc'], 'msg': o['msg'], 'entry': 'decode:' + cname, 'mode': mode, 'where': o.get('where')})
+                elif o['class'] == 'library' and mode in ('lax', 'skip'):
+                    report(ctx, '%s mode raised for a well-formed document' % mode, case,
+                           {'exc': o['exc'], 'msg': o['msg'], 'entry': 'decode:' + cname, 'mode': mode, 'where': o.get('where')})
     elif 'schema' in case:
         sname = case['schema']
         if sname.startswith('corpus:'):
